@@ -90,6 +90,9 @@ func eq(a, b reflect.Value, o EqOpts, path string) (bool, string) {
 		}
 		return true, ""
 	case reflect.Pointer, reflect.Interface:
+		if a.Kind() == reflect.Interface && a.Type().String() == "io.Reader" {
+			return true, "" // streams are consumed by sending them; their bytes are not compared here
+		}
 		if a.IsNil() || b.IsNil() {
 			if a.IsNil() != b.IsNil() {
 				return false, fmt.Sprintf("%s: nil vs non-nil", path)
